@@ -323,6 +323,7 @@ func execOp(w *World, op *Op) (res Result) {
 			res.Ret = "encode error"
 			return
 		}
+		b = ownBytes(b)
 		err = z.GobDecode(b)
 		res.Failed = err != nil
 		res.Ret = fmt.Sprintf("%x", b)
@@ -417,11 +418,11 @@ func execOp(w *World, op *Op) (res Result) {
 	case "GobEncode":
 		b, err := a(0).GobEncode()
 		res.Failed = err != nil
-		res.Ret = fmt.Sprintf("%x", b)
+		res.Ret = fmt.Sprintf("%x", ownBytes(b))
 	case "MarshalText":
 		b, err := a(0).MarshalText()
 		res.Failed = err != nil
-		res.Ret = string(b)
+		res.Ret = string(ownBytes(b))
 	case "MarshalJSON":
 		b, err := json.Marshal(a(0))
 		res.Failed = err != nil
